@@ -302,27 +302,21 @@ Qed.
 Definition default_entries (l : list (list byte * option value)) : list (list byte * value) :=
   map (fun e => (fst e, match snd e with Some v => v | None => [] end)) l.
 
-(* the view through every handle is the view of the pure trie of its lineage *)
-Theorem pure_agrees : forall hist,
-  frozen_parents hist = true ->
-  forall j t pv pu, nth_error (prun hist) j = Some (t, pv, pu) ->
-  exists h, Model.view H true (run hist init_state) j
-            = Some (h, default_entries (Trie.Model.trie_entries t))
+(* under the two invariants the view through a handle is the view of its pure trie *)
+Lemma view_of_inv st fr ts ps :
+  Inv st fr ts -> PInv st ts ps ->
+  forall j t pv pu, nth_error ps j = Some (t, pv, pu) ->
+  exists h, Model.view H true st j = Some (h, default_entries (Trie.Model.trie_entries t))
             /\ (pu = true -> h = Encode.trie_root H (ver_of pv) t).
 Proof.
-  intros hist Hfz j t pv pu Pj. unfold frozen_parents in Hfz.
-  assert (P0 : PInv init_state [None] [(None, false, true)]).
-  { split; auto. intros [|[|?]] hd ot tt v u Hh T B; simpl in *; try discriminate.
-    inversion Hh; inversion T; inversion B; subst. simpl. auto. }
-  destruct (prun_inv hist init_state [] [None] _ (init_inv H) P0 Hfz) as (ts & I & (Plen & P)).
-  fold (prun hist) in Plen, P.
+  intros I (Plen & P) j t pv pu Pj.
   assert (Hj : j < length ts) by (apply nth_error_lt in Pj; lia).
   destruct (nth_error ts j) as [ot|] eqn:Tj; [|apply nth_error_None in Tj; lia].
-  destruct (nth_error (s_hs (run hist init_state)) j) as [hd|] eqn:Hh.
+  destruct (nth_error (s_hs st) j) as [hd|] eqn:Hh.
   2:{ apply nth_error_None in Hh. rewrite <- (il _ _ _ _ I) in Hh. lia. }
   pose proof (it _ _ _ _ I j hd ot Hh Tj) as Ht. pose proof (iw _ _ _ _ I) as Hw.
   destruct (P j hd ot t pv pu Hh Tj Pj) as (Eo & Ev & Hl).
-  unfold Model.view. rewrite Hh. exists (snd (hash_handle H (s_mem (run hist init_state)) hd)).
+  unfold Model.view. rewrite Hh. exists (snd (hash_handle H (s_mem st) hd)).
   destruct ot as [tt|]; simpl in Eo; subst t.
   - destruct (htree_some H _ _ _ Ht) as (Er & Hr & Hs & _ & Hc). simpl in Hl. split.
     + f_equal. f_equal. unfold default_entries. apply (entries_trie (fl_u pu pv)); auto.
@@ -334,5 +328,23 @@ Proof.
     + intros _. unfold hash_handle. rewrite En. reflexivity.
 Qed.
 
+Lemma PInv_init : PInv init_state [None] [(None, false, true)].
+Proof.
+  split; auto. intros [|[|?]] hd ot tt v u Hh T B; simpl in *; try discriminate.
+  inversion Hh; inversion T; inversion B; subst. simpl. auto.
+Qed.
+
+(* the view through every handle is the view of the pure trie of its lineage *)
+Theorem pure_agrees : forall hist,
+  frozen_parents hist = true ->
+  forall j t pv pu, nth_error (prun hist) j = Some (t, pv, pu) ->
+  exists h, Model.view H true (run hist init_state) j
+            = Some (h, default_entries (Trie.Model.trie_entries t))
+            /\ (pu = true -> h = Encode.trie_root H (ver_of pv) t).
+Proof.
+  intros hist Hfz j t pv pu Pj. unfold frozen_parents in Hfz.
+  destruct (prun_inv hist init_state [] [None] _ (init_inv H) PInv_init Hfz) as (ts & I & PI).
+  exact (view_of_inv _ _ _ _ I PI j t pv pu Pj).
+Qed.
 
 End PureAll.
